@@ -10,9 +10,9 @@
    rfc1738_escape_part are the per-byte tables regenerated from the functions (gen/ByteMaps_gen.v).
    markup_free b: b contains none of the four characters less-than, greater-than, double quote, apostrophe,
    and b is a concatenation of items that are either one byte that is not a markup metacharacter (those four
-   and the ampersand) or a well-formed entity reference (QuoteProofs.html_item, the C32 notion).
+   and the ampersand) or a well-formed entity reference (PagelogProofs.html_item, the C32 notion).
    is_client letter: the hand-assigned source class of the macro is Client (PagelogModel.class_table). *)
-Require Import SquidV.Bytes SquidV.QuoteModel SquidV.QuoteProofs SquidV.PagelogModel SquidV.PagelogProofs.
+Require Import SquidV.Bytes SquidV.QuoteModel SquidV.PagelogModel SquidV.PagelogProofs.
 Require Import SquidV.gen.ErrMacros_gen.
 Local Open Scope N_scope.
 
